@@ -32,7 +32,7 @@ class HarnessError(Exception):
 
 
 class Outcome:
-    __slots__ = ("fails", "nontrivial", "labels", "inconclusive", "metrics")
+    __slots__ = ("fails", "nontrivial", "labels", "inconclusive", "metrics", "units", "nontrivial_units")
 
     def __init__(self):
         self.fails = []          # list of (signature_class, message)
@@ -40,6 +40,8 @@ class Outcome:
         self.labels = []
         self.inconclusive = False
         self.metrics = {}        # name -> float (max is kept across cases)
+        self.units = 1           # elementary evaluations bundled in this case (enumeration chunks)
+        self.nontrivial_units = None   # how many of them are non-trivial (default: 1 if nontrivial)
 
     def fail(self, sigclass, msg=""):
         self.fails.append((str(sigclass), str(msg)[:500]))
@@ -172,7 +174,7 @@ class _Acc:
 
     def __init__(self):
         self.evaluations = 0
-        self.nontrivial_hashes = set()
+        self.nontrivial_hashes = {}
         self.labels = {}
         self.metrics = {}
         self.inconclusive = 0
@@ -181,12 +183,12 @@ class _Acc:
         self.samples = []
 
     def add(self, case, out, index):
-        self.evaluations += 1
+        self.evaluations += int(out.units)
         h = chash(case)
         if out.nontrivial:
             if h not in self.nontrivial_hashes and len(self.samples) < 2:
                 self.samples.append(case)
-            self.nontrivial_hashes.add(h)
+            self.nontrivial_hashes[h] = int(out.nontrivial_units) if out.nontrivial_units is not None else 1
         for lab in set(out.labels):
             self.labels[lab] = self.labels.get(lab, 0) + 1
         for k, v in out.metrics.items():
@@ -207,7 +209,7 @@ class _Acc:
 
     def dump(self):
         return dict(evaluations=self.evaluations,
-                    nontrivial_hashes=sorted(self.nontrivial_hashes),
+                    nontrivial_hashes=self.nontrivial_hashes,
                     labels=self.labels, metrics=self.metrics,
                     inconclusive=self.inconclusive, skipped=self.skipped,
                     failures=self.failures, samples=self.samples)
@@ -432,7 +434,7 @@ def run_check(check_id, tier, seed, only_sub=None):
     for task, res in zip(tasks, results):
         by_sub.setdefault(task[1], []).append((task, res))
     for sub in subs:
-        nt = set()
+        nt = {}
         ev = 0
         fails_here = {}
         for task, (status, shard, payload) in by_sub.get(sub.name, []):
@@ -464,9 +466,9 @@ def run_check(check_id, tier, seed, only_sub=None):
                 else:
                     cur[0]["count"] += rec["count"]
         stats["evaluations"] += ev
-        stats["distinct_nontrivial"] += len(nt)
+        stats["distinct_nontrivial"] += sum(nt.values())
         stats["per_sub"][sub.name] = dict(
-            evaluations=ev, distinct_nontrivial=len(nt),
+            evaluations=ev, distinct_nontrivial=sum(nt.values()),
             kind="enumeration" if sub.cases is not None else "hypothesis",
             exhaustive=bool(sub.exhaustive))
         if not sub.exhaustive:
